@@ -651,7 +651,7 @@ def allocfail_stage(prop, tier, seed, hard, inconclusive, extra_cov, stages):
                      "witness": {"refused_allocation": k}})
 
 
-BROAD_PROPS = ["C01", "C05", "C08", "C10", "C13", "C15", "C20"]
+BROAD_PROPS = ["C01", "C03", "C05", "C08", "C10", "C13", "C15", "C20"]
 FUZZ_THOROUGH = {"C01": "decode", "C02": "decode", "C05": "decode", "C10": "decode", "C14": "decode", "C12": "reveal", "C13": "reveal"}
 FUZZ_SECONDS = int(os.environ.get("VERIF_FUZZ_SECONDS", "240"))
 FUZZ_DIR = os.path.join(ROOT, "fuzz")
@@ -1120,8 +1120,9 @@ def c19_extra(tier, seed, rundir, merged, hard, inconclusive, extra_cov, stages)
         if ok1 and ok2:
             b1, b2 = m1.buckets.get("rel", {}), m2.buckets.get("rel", {})
             # stack.* buckets are measurements of the environment (lazy binding and first-call
-            # initialisation use stack once per process), not outcomes: not compared
-            diff = sorted(k for k in set(b1) | set(b2) if b1.get(k) != b2.get(k) and not k.startswith("stack."))
+            # initialisation use stack once per process), not outcomes: not compared; nor are the
+            # wall-clock classes of the slow reader (how long a sleeping reader took on a loaded machine)
+            diff = sorted(k for k in set(b1) | set(b2) if b1.get(k) != b2.get(k) and not k.startswith("stack.") and not k.startswith("slow_reader.took_"))
             sdiff = sorted(k for k in set(m1.sig_counts) | set(m2.sig_counts) if m1.sig_counts.get(k) != m2.sig_counts.get(k))
             entry["partitions_agree"] = not diff and not sdiff
             if diff or sdiff:
